@@ -210,7 +210,7 @@ def run_unit(unit, work, tier='quick'):
             base += ['--unwind', str(unit['unwind']), '--unwinding-assertions']
             res['bounded'] = 'unwind %d' % unit['unwind']
         base += ['--object-bits', str(unit.get('object_bits', 10))]
-        backends = unit.get('backend', ['cadical', 'minisat'])
+        backends = unit.get('backend', ['cadical', 'minisat', 'cvc5'])
         if isinstance(backends, str):
             backends = [backends]
         out, be, dt = portfolio(base, backends, timeout, log)
